@@ -131,3 +131,59 @@ Definition norm_body (j : json) : json :=
             ("extensions", match obj_get "extensions" m with Some (JObj e) => JObj e | _ => JNull end)]
   | _ => j
   end.
+
+(* ---------- the values of the envelope types (the domain of the round-trip theorem,
+   EnvelopeRoundTrip.v): which rvalue trees are values of Response<Data>, Error, Location,
+   PathFragment and HashMap<String, serde_json::Value>.  Integers are i32, a HashMap is its
+   key-sorted entry list (the model's canonical form of an unordered map), `Data` is any JSON
+   that is not null (the property's quantifier: "data types that never serialize to null"). *)
+Definition wt_i32 (v : rvalue) : bool := match v with VInt z => in_i32 z | _ => false end.
+Definition wt_str (v : rvalue) : bool := match v with VStr _ => true | _ => false end.
+Definition wt_opt (p : rvalue -> bool) (v : rvalue) : bool :=
+  match v with VNone => true | VSome x => p x | _ => false end.
+Definition wt_seq (p : rvalue -> bool) (v : rvalue) : bool :=
+  match v with VSeq l => forallb p l | _ => false end.
+
+Definition wt_loc (v : rvalue) : bool :=
+  match v with
+  | VStruct [(k1, a); (k2, b)] => String.eqb k1 "line" && String.eqb k2 "column" && wt_i32 a && wt_i32 b
+  | _ => false
+  end.
+
+Definition wt_frag (v : rvalue) : bool :=
+  match v with
+  | VVariant i (Some (VStr _)) => String.eqb i "Key"
+  | VVariant i (Some (VInt z)) => String.eqb i "Index" && in_i32 z
+  | _ => false
+  end.
+
+(* strictly increasing keys, stated pairwise (each key is greater than every earlier one) *)
+Definition gt_key {A} (k : string) (e : string * A) : bool :=
+  match String.compare (fst e) k with Gt => true | _ => false end.
+Fixpoint increasing {A} (m : list (string * A)) : bool :=
+  match m with
+  | [] => true
+  | (k, _) :: r => forallb (gt_key k) r && increasing r
+  end.
+Definition is_vjson (v : rvalue) : bool := match v with VJson _ => true | _ => false end.
+Definition wt_map (v : rvalue) : bool :=
+  match v with VMap m => increasing m && forallb (fun e => is_vjson (snd e)) m | _ => false end.
+
+Definition wt_error (v : rvalue) : bool :=
+  match v with
+  | VStruct [(k1, a); (k2, b); (k3, c); (k4, d)] =>
+      String.eqb k1 "message" && String.eqb k2 "locations" && String.eqb k3 "path" && String.eqb k4 "extensions"
+      && wt_str a && wt_opt (wt_seq wt_loc) b && wt_opt (wt_seq wt_frag) c && wt_opt wt_map d
+  | _ => false
+  end.
+
+Definition wt_data (v : rvalue) : bool := match v with VJson j => negb (is_null j) | _ => false end.
+
+Definition wt_response (v : rvalue) : bool :=
+  match v with
+  | VStruct [(k1, a); (k2, b); (k3, c)] =>
+      String.eqb k1 "data" && String.eqb k2 "errors" && String.eqb k3 "extensions"
+      && wt_opt wt_data a && wt_opt (wt_seq wt_error) b && wt_opt wt_map c
+  | _ => false
+  end.
+
